@@ -484,6 +484,135 @@ Definition load_by_path (U : universe) (sps : list nat) (p : path) : byp :=
   end.
 
 (* ------------------------------------------------------------------------------------------------------------- *)
+(* The state of a process: several GriffeLoaders, each with its ModuleFinder.  The mutable fields are the ones the code
+   has (Gen/C14_tables.v: gen_finder_state, gen_loader_state): finder.search_paths (grown by a request by path whose
+   directory is not searched yet), finder._paths_contents (a memo of directory listings), loader.modules_collection
+   (the loaded top-level packages).  Class-level data (accepted extensions) is constant: no transition writes it.
+   Requests are static loads (allow_inspection = false, no stubs package). *)
+Record fstate := mkF { fs_paths : list nat; fs_cache : list (nat * listing) }.
+Record lstate := mkL { ls_f : fstate; ls_coll : list (string * loaded) }.
+Definition pstate := list (nat * lstate).
+Inductive request := RNew (id : nat) (sps : list nat) | RName (id : nat) (name : string) | RPath (id : nat) (p : path).
+Inductive answer := ANew | ANoLoader | ALoaded (l : loaded) | APath (b : byp).
+
+(* ModuleFinder._contents *)
+Definition contents (U : universe) (c : list (nat * listing)) (i : nat) : listing * list (nat * listing) :=
+  match lookup_nat i c with Some L => (L, c) | None => (root U i, c ++ [(i, root U i)]) end.
+
+(* find_package reading the listings through the memo *)
+Fixpoint g_find_c (U : universe) (name : string) (paths : list nat) (nsacc : list path) (c : list (nat * listing))
+  : found * list (nat * listing) :=
+  match paths with
+  | [] => (match nsacc with [] => FNone | _ => FNs nsacc end, c)
+  | i :: r =>
+      let '(L, c1) := contents U c i in
+      let second (acc : list path) :=
+          if has_entry (name ++ ".py")%string L
+          then (FPkg (i, [(name ++ ".py")%string]) (if has_entry (name ++ ".pyi")%string L then Some (i, [(name ++ ".pyi")%string]) else None), c1)
+          else g_find_c U name r acc c1 in
+      match lookup_entry name L with
+      | None => second nsacc
+      | Some nd =>
+          let inner := match nd with Dir l => l | File _ _ => [] end in
+          let regular_init := match lookup_entry "__init__.py" inner with
+                              | Some (File ns _) => negb ns
+                              | Some (Dir _) => true
+                              | None => false end in
+          if regular_init
+          then (FPkg (i, [name; "__init__.py"]) (if has_entry "__init__.pyi" inner then Some (i, [name; "__init__.pyi"]) else None), c1)
+          else if has_entry "__init__.pyi" inner then (FPkg (i, [name; "__init__.pyi"]) None, c1)
+          else second (nsacc ++ [(i, [name])])
+      end
+  end.
+
+Fixpoint get_loader (id : nat) (S : pstate) : option lstate :=
+  match S with [] => None | (k, l) :: r => if (k =? id)%nat then Some l else get_loader id r end.
+Fixpoint set_loader (id : nat) (l : lstate) (S : pstate) : pstate :=
+  match S with [] => [(id, l)] | (k, x) :: r => if (k =? id)%nat then (k, l) :: r else (k, x) :: set_loader id l r end.
+Definition set_coll (name : string) (v : loaded) (c : list (string * loaded)) : list (string * loaded) :=
+  (name, v) :: filter (fun kv => negb (fst kv =? name)) c.
+
+(* what a request by path does to the search paths, and which top-level name it loads *)
+Definition path_request_names (U : universe) (paths : list nat) (p : path) : option (option (string * string * list nat)) :=
+  match module_name_path U p with
+  | None => None                                   (* FileNotFoundError *)
+  | Some (mn, mp) =>
+      match top_module_name U paths mp with
+      | None => Some None                          (* outside the model *)
+      | Some (top, extra) => Some (Some (mn, top, match extra with Some r => r :: paths | None => paths end))
+      end
+  end.
+
+Definition keep_or_keyerror (mn top : string) (l : loaded) : loaded :=
+  match l with LOk M => if mn =? top then LOk M else LErr "KeyError" | other => other end.
+
+Definition step (U : universe) (S : pstate) (r : request) : pstate * answer :=
+  match r with
+  | RNew id sps =>
+      let paths := g_paths U sps in
+      (set_loader id (mkL (mkF paths (map (fun i => (i, root U i)) (add_new sps []))) []) S, ANew)
+  | RName id name =>
+      match get_loader id S with
+      | None => (S, ANoLoader)
+      | Some l =>
+          let '(f, c') := g_find_c U name (fs_paths (ls_f l)) [] (fs_cache (ls_f l)) in
+          let res := load_found false U f in
+          (set_loader id (mkL (mkF (fs_paths (ls_f l)) c') (set_coll name res (ls_coll l))) S, ALoaded res)
+      end
+  | RPath id p =>
+      match get_loader id S with
+      | None => (S, ANoLoader)
+      | Some l =>
+          match path_request_names U (fs_paths (ls_f l)) p with
+          | None => (S, APath BPNotFound)
+          | Some None => (S, APath BPUnsupported)
+          | Some (Some (mn, top, paths')) =>
+              let '(f, c') := g_find_c U top paths' [] (fs_cache (ls_f l)) in
+              let res := load_found false U f in
+              (set_loader id (mkL (mkF paths' c') (set_coll top res (ls_coll l))) S, APath (BPLoaded top (keep_or_keyerror mn top res)))
+          end
+      end
+  end.
+
+Fixpoint run_requests (U : universe) (S : pstate) (rs : list request) : pstate * list answer :=
+  match rs with
+  | [] => (S, [])
+  | r :: rest => let '(S1, a) := step U S r in let '(S2, l) := run_requests U S1 rest in (S2, a :: l)
+  end.
+
+(* the stateless reference: the search paths of loader [id] after the requests addressed to it, nothing else *)
+Fixpoint ref_paths (U : universe) (rs : list request) (id : nat) (cur : option (list nat)) : option (list nat) :=
+  match rs with
+  | [] => cur
+  | RNew k sps :: rest => ref_paths U rest id (if (k =? id)%nat then Some (g_paths U sps) else cur)
+  | RName _ _ :: rest => ref_paths U rest id cur
+  | RPath k p :: rest =>
+      ref_paths U rest id
+        (if (k =? id)%nat
+         then match cur with
+              | Some paths => match path_request_names U paths p with Some (Some (_, _, paths')) => Some paths' | _ => cur end
+              | None => None end
+         else cur)
+  end.
+
+Definition ref_answer (U : universe) (paths : option (list nat)) (r : request) : answer :=
+  match r with
+  | RNew _ _ => ANew
+  | RName _ name => match paths with None => ANoLoader | Some ps => ALoaded (load_found false U (g_find U name ps [])) end
+  | RPath _ p =>
+      match paths with
+      | None => ANoLoader
+      | Some ps => match path_request_names U ps p with
+                   | None => APath BPNotFound
+                   | Some None => APath BPUnsupported
+                   | Some (Some (mn, top, ps')) => APath (BPLoaded top (keep_or_keyerror mn top (load_found false U (g_find U top ps' []))))
+                   end
+      end
+  end.
+
+Definition request_id (r : request) : nat := match r with RNew i _ | RName i _ | RPath i _ => i end.
+
+(* ------------------------------------------------------------------------------------------------------------- *)
 (* The authority: CPython 3.12 on Linux *)
 Definition ext_suffix : string := ".cpython-312-x86_64-linux-gnu.so".
 Definition py_suffixes : list string := [ext_suffix; ".abi3.so"; ".so"; ".py"; ".pyc"].   (* FileFinder loader order *)
@@ -858,6 +987,42 @@ Definition run_C14 (s : sexp) : sexp :=
           | _, _ => bad_input
           end
       | _, _ => bad_input end
+  | SList [SStr "history"; c; SList reqs] =>
+      (* a history of requests on the loaders of one process: [["new", id, [sps]] | ["name", id, name] | ["path", id, [root, comps]]] *)
+      match dec_case c with
+      | Some (u, _, _) =>
+          let dec (r : sexp) : option request :=
+              match r with
+              | SList [SStr "new"; i; sp] => do i' <- as_nat i; do sp' <- as_list_of as_nat sp; Some (RNew i' sp')
+              | SList [SStr "name"; i; SStr n] => do i' <- as_nat i; Some (RName i' n)
+              | SList [SStr "path"; i; SList [r0; comps]] => do i' <- as_nat i; do r' <- as_nat r0; do cs <- as_list_of as_str comps; Some (RPath i' (r', cs))
+              | _ => None
+              end in
+          match map_opt dec reqs with
+          | Some rs =>
+              let enc (ra : request * answer) : sexp :=
+                  match snd ra with
+                  | ANew => SList [SStr "new"]
+                  | ANoLoader => SList [SStr "noloader"]
+                  | ALoaded l => enc_loaded (match fst ra with RName _ n => n | _ => "" end) l
+                  | APath BPNotFound => SList [SStr "err"; SStr "FileNotFoundError"]
+                  | APath BPUnsupported => SList [SStr "unsupported"]
+                  | APath (BPLoaded top l) => enc_loaded top l
+                  end in
+              (* second component: for every request, whether the loader's search paths are still the ones it was created with *)
+              let fresh_paths (k : nat) (r : request) : sexp :=
+                  let pre := firstn k rs in
+                  let id := request_id r in
+                  of_bool (match ref_paths u pre id None,
+                                 ref_paths u (filter (fun q => match q with RPath _ _ => false | _ => true end) pre) id None with
+                           | Some a, Some b => if list_eq_dec Nat.eq_dec a b then true else false
+                           | None, None => true
+                           | _, _ => false end) in
+              SList [SList (map enc (combine rs (snd (run_requests u [] rs))));
+                     SList (map (fun kr => fresh_paths (fst kr) (snd kr)) (combine (seq 0 (List.length rs)) rs))]
+          | None => bad_input
+          end
+      | None => bad_input end
   | SList [SStr "subs"; c] =>
       (* finder.submodules(top module): the ordered list handed to the loader *)
       match dec_case c with
